@@ -31,7 +31,7 @@ type c14Call struct {
 	Code     int    `json:"code"`               // custom limit-exceeded classifier's status code
 	CtxDone  int    `json:"ctx_done,omitempty"` // the caller's context: 0 live, 1 already cancelled, 2 deadline already expired (the limiter double ignores it; the classifier's choice must stand)
 	Same     bool   `json:"same,omitempty"`     // stream: this operation runs on the same wrapped stream (same handler invocation) as the previous one
-	Nested   int    `json:"nested,omitempty"`   // unary: the wrapped call itself makes a call through another unary client interceptor of the package, with the context it was handed: 0 no, 1 that inner limiter grants, 2 it refuses. Whatever happens in there, the outer token's outcome is the outer classifier's choice
+	Nested   int    `json:"nested,omitempty"`   // unary: the wrapped call itself makes a call through another unary client interceptor of the package, with the context it was handed: 0 no, 1 that inner limiter grants, 2 it refuses, 3 the wrapped call goes through the very same interceptor once more. Whatever happens in there, the outer token's outcome is the outer classifier's choice
 	ExcErr   int    `json:"exc_err,omitempty"`  // error the custom limit-exceeded classifier returns next to the code: 0 plain, 1 a gRPC status error carrying another code, 2 such a status error wrapped with %w
 }
 
@@ -79,7 +79,7 @@ func genC14(t *rapid.T) c14Case {
 			Resp:     rapid.IntRange(0, 3).Draw(t, "resp"),
 			Classify: rapid.IntRange(0, 2).Draw(t, "classify"),
 			Code:     rapid.IntRange(1, 16).Draw(t, "code"),
-			Nested:   rapid.SampledFrom([]int{0, 0, 0, 1, 2}).Draw(t, "nested"),
+			Nested:   rapid.SampledFrom([]int{0, 0, 0, 1, 2, 3}).Draw(t, "nested"),
 			ExcErr:   rapid.SampledFrom([]int{0, 0, 1, 2}).Draw(t, "excErr"),
 			Same:     rapid.Bool().Draw(t, "same"),
 			CtxDone:  rapid.SampledFrom([]int{0, 0, 0, 1, 2}).Draw(t, "ctxDone"),
@@ -203,10 +203,22 @@ func runC14(_ *testing.T, c c14Case) (out kit.Outcome) {
 		}
 	}
 	// a second, independent client interceptor used from inside wrapped calls (its events go to a log of their own)
+	reentryViolation := ""
 	nestedGrant := true
 	nestedL := &c14Limiter{name: "nested", log: &c14Log{}, grant: &nestedGrant}
 	nestedI := gcl.UnaryClientInterceptor(gcl.WithLimiter(nestedL), gcl.WithName("nested"))
+	// reenter: the wrapped call goes through the *same* interceptor once more, with the context it was handed (an
+	// interceptor installed twice on a chain, a handler that dispatches back through it). The inner passage is a call
+	// like any other: it acquires from the configured limiter and completes what it acquired. Its events are recorded
+	// apart from those of the outer call.
+	var reenter func(ctx context.Context) string
 	nest := func(ctx context.Context) {
+		if cur.Nested == 3 {
+			if msg := reenter(ctx); msg != "" && reentryViolation == "" {
+				reentryViolation = msg
+			}
+			return
+		}
 		if cur.Nested == 0 {
 			return
 		}
@@ -279,6 +291,39 @@ func runC14(_ *testing.T, c c14Case) (out kit.Outcome) {
 		outerI = gcl.StreamServerInterceptor()
 	}
 
+	reenter = func(ctx context.Context) string {
+		if !c.CustomLimiter || (c.Kind != "server" && c.Kind != "client") {
+			return "" // only a recording limiter shows what the inner passage did
+		}
+		outerLog, saved := log, *log
+		scratch := &c14Log{}
+		*log = *scratch // every closure that records (limiter, classifiers) writes into the same object: empty it for the inner passage
+		ran := false
+		switch c.Kind {
+		case "server":
+			_, _ = serverI(ctx, "req2", &grpc.UnaryServerInfo{FullMethod: "/svc/M"}, func(context.Context, interface{}) (interface{}, error) { ran = true; return nil, nil })
+		case "client":
+			_ = clientI(ctx, "/svc/M", "req2", "reply2", nil, func(context.Context, string, interface{}, interface{}, *grpc.ClientConn, ...grpc.CallOption) error {
+				ran = true
+				return nil
+			})
+		}
+		inner := append([]string(nil), outerLog.ev...)
+		*log = saved
+		acq, done := 0, 0
+		for _, e := range inner {
+			switch {
+			case strings.HasPrefix(e, "acquire(unary)=token"):
+				acq++
+			case strings.HasPrefix(e, "success(unary.") || strings.HasPrefix(e, "ignore(unary.") || strings.HasPrefix(e, "dropped(unary."):
+				done++
+			}
+		}
+		if ran && (acq != 1 || done != 1) {
+			return fmt.Sprintf("the wrapped call went through the same interceptor again with the context it had been handed: the inner call ran, having acquired %d token(s) from the configured limiter and completed %d (events of the inner passage: %v)", acq, done, inner)
+		}
+		return ""
+	}
 	var sawRefusal, sawGrant, sawNonSuccess, sawRecv, sawSend, sawSameStream bool
 	var (
 		liveSS    grpc.ServerStream // the wrapped stream of the handler invocation in progress (several operations on one stream)
@@ -490,6 +535,9 @@ func runC14(_ *testing.T, c c14Case) (out kit.Outcome) {
 			if j == i+1 {
 				if o := check(i); o != nil {
 					return *o
+				}
+				if reentryViolation != "" {
+					return kit.Viol(c.Kind+":reentry", "call %d %+v: %s", i, c.Calls[i], reentryViolation)
 				}
 				i = j
 				continue
